@@ -556,4 +556,85 @@ def collect_links(ctx, planner):
                     links.append({'kind': 'edge-elem', 'fn': fn, 'body': b, 'block': bi,
                                   'a': node_state_term(m[1], m[2], c['state_field']), 'cont': m[1], 'defs': vdefs,
                                   'cinfo': c, 'J': m[2]})
+    # D: a node literal pushed with a non-empty adjacency list: every element of the list is a link whose guard is the
+    #    guard of the push that put it into the list (e.g. `edges: neighbours.clone()`)
+    seen = {(L['fn'].path, L['block']) for L in links}
+    for pu in pushes(ctx, planner):
+        fn, b, bi = pu['fn'], pu['body'], pu['block']
+        t = pu['term']
+        lits, other = find_literals(fn, t['args'][1], (bi, fn.nstmts(bi)),
+                                    lambda rv: rv.get('adt') == pu['cinfo']['node'])
+        if other or not lits:
+            continue
+        for (lb, li, lst) in lits:
+            st_terms = fn.op_terms(_field_operand(lst, pu['cinfo']['state_field']), (lb, li))
+            for lf in list_fields:
+                if not pu['cinfo'].get('link_tys', {}).get(lf, '').startswith('std::vec::Vec<'):
+                    continue
+                fop = _field_operand(lst, lf)
+                if fop is None:
+                    continue
+                raw = fn.op_terms(fop, (lb, li))
+                cloned = any(n[0] == 'clone' for n in raw)
+                ts = strip_clone(raw)
+                cr = list_creations(ts)
+                if not cr or not all(n in cr or n[0] == 'out' for n in ts):
+                    problems.append((b, bi, 'the adjacency list of a pushed node is initialised with %s (not a list built in this function)' %
+                                     fmt_terms(ts)[:60]))
+                    continue
+                cblocks = frozenset(n[3][1] for n in cr if n[0] == 'call' and n[3][0] == fn.path)
+                after = fn.reachable_multi([s for s in fn.succs(lb)], stop=cblocks) if fn.succs(lb) else set()
+                for (pb, _x, pt) in list_pushes(fn, cr):
+                    if cloned and pb in after and pb != lb:
+                        problems.append((b, pb, 'the list copied into a pushed node\'s adjacency list is extended after the copy was taken'))
+                    if (fn.path, pb) in seen:
+                        continue
+                    seen.add((fn.path, pb))
+                    vdefs = [(db, tt) for (db, _di, tt) in fn.split_defs(pt['args'][1], (pb, fn.nstmts(pb)))]
+                    links.append({'kind': 'edge-new', 'fn': fn, 'body': b, 'block': pb, 'a': st_terms, 'cont': pu['cont'],
+                                  'defs': vdefs, 'cinfo': pu['cinfo'], 'node_local': None, 'via_list': True, 'push_block': bi})
     return links, problems
+
+
+OPT_INSERT = ('std::option::Option::<T>::insert', 'std::option::Option::<T>::replace')
+OPT_COND_INSERT = ('std::option::Option::<T>::get_or_insert', 'std::option::Option::<T>::get_or_insert_with',
+                   'std::option::Option::<T>::get_or_insert_default')
+
+
+def install_sites(fn, fname):
+    """sites that store into the Option field self.<fname>:
+    list of dict(block, idx, kind = 'store' | 'conditional', value = terms of the stored payload or None)
+      store        self.f = Some(v)  |  self.f = <expr>  |  self.f.insert(v)  |  self.f.replace(v)
+      conditional  self.f.get_or_insert(v) / get_or_insert_with(..): stores only when the field is still None"""
+    b = fn.b
+    out = []
+    for bi, blk in enumerate(b.blocks):
+        if blk['cleanup']:
+            continue
+        for si, st in enumerate(blk['stmts']):
+            if st['k'] != 'assign':
+                continue
+            pl = st['place']
+            names = [e.get('name') for e in pl['p'] if isinstance(e, dict) and 'f' in e]
+            if pl['l'] == 1 and names == [fname] and any(e == 'deref' for e in pl['p']):
+                v = fn.rvalue_terms(st['rv'], (bi, si))
+                pay = set()
+                for n in v:
+                    if n[0] == 'agg' and n[2] == 'Some' and n[3]:
+                        pay |= set(n[3][0][1])
+                    else:
+                        pay = None
+                        break
+                out.append({'block': bi, 'idx': si, 'kind': 'store', 'value': frozenset(pay) if pay is not None else None,
+                            'raw': v})
+        t = blk['term']
+        if t['k'] == 'call' and t['func'].get('path') in OPT_INSERT + OPT_COND_INSERT and t['args']:
+            pl = t['args'][0].get('move') or t['args'][0].get('copy')
+            if pl is None:
+                continue
+            idt = fn.place_terms(pl, (bi, fn.nstmts(bi)), mut_kills=False)
+            if idt and all(n[0] == 'field' and n[2] == fname and all(q[0] == 'param' and q[1] == 1 for q in n[1]) for n in idt):
+                kind = 'store' if t['func']['path'] in OPT_INSERT else 'conditional'
+                v = fn.arg_terms(t, 1, bi) if len(t['args']) > 1 else None
+                out.append({'block': bi, 'idx': fn.nstmts(bi), 'kind': kind, 'value': v, 'raw': v})
+    return out
